@@ -507,8 +507,10 @@ def templates():
     def _(p, a):
         out_f = int(SIZES[p.rng.integers(len(SIZES))])
         in_f = a.shape[-1]
-        kinds = ["w8a0", "w8a0", "wf8a0", "w4", "w2", "act8", "plain"]
+        kinds = ["w8a0", "w8a0", "wf8a0", "w4", "w2", "act8", "plain", "w8a-1", "wf8a-1"]
         kind = kinds[p.rng.integers(len(kinds))]
+        if kind.endswith("a-1") and p.rng.random() < 0.5:
+            out_f = in_f  # square: as many scales along the contraction as there are output features
         if out_f == 1 or in_f == 1:
             kind = "act8" if kind.startswith("w") else kind
         if kind in ("w4", "w2"):
